@@ -14,12 +14,14 @@ RULE = (
 BOUNDS = {
     "quick": "all 256 qualifier subsets x all 4^3 sequences over {absent,1,2,3} (+ the 6^3-4^3 sequences with true/false for the 64 "
     "subsets without increase/decrease) x {rest matches on all lines, on no line}",
-    "thorough": "as quick x all 8 per-line patterns of rest-matches, plus y given as an empty cell instead of a short record, plus "
-    "reversed qualifier order",
+    "thorough": "as quick x all 8 per-line patterns of rest-matches, plus reversed qualifier order, plus all 4^4 sequences of 4 values "
+    "(rest matches on all / no lines)",
 }
 ASSUMPTIONS = [
     "AND logic mode (the statement's onmatch clause is defined for AND)",
     "values are header cells, i.e. strings; ordering of '1' < '2' < '3' is the same for strings and numbers",
+    "absent y = a record too short to have the cell; an EMPTY cell is not asserted to be None (docs/assignment.md does not say so; the "
+    "implementation assigns the empty string)",
 ]
 CHUNK = 200
 BUDGET = {"quick": 500, "thorough": 3400}
@@ -31,16 +33,18 @@ YB = [None, "1", "2", "3", "true", "false"]
 def cases(tier, seed):
     quals = refassign.QUALS
     rests = [[True] * 3, [False] * 3] if tier == "quick" else [list(r) for r in itertools.product([True, False], repeat=3)]
-    variants = [("short", False)] if tier == "quick" else [("short", False), ("empty", False), ("short", True)]
-    for absent_as, rev in variants:
+    variants = [("short", False, 3)] if tier == "quick" else [("short", False, 3), ("short", True, 3), ("short", False, 4)]
+    for absent_as, rev, ln in variants:
+        if ln == 4:
+            rests = [[True] * 4, [False] * 4]
         for mask in range(256):
             qs = [q for i, q in enumerate(quals) if mask >> i & 1]
             if rev:
                 if len(qs) < 2:
                     continue
                 qs = qs[::-1]
-            seqs = list(itertools.product(YS, repeat=3))
-            if "increase" not in qs and "decrease" not in qs:
+            seqs = list(itertools.product(YS, repeat=ln))
+            if ln == 3 and "increase" not in qs and "decrease" not in qs:
                 seqs += [s for s in itertools.product(YB, repeat=3) if "true" in s or "false" in s]
             for ys in seqs:
                 for rest in rests:
@@ -101,7 +105,7 @@ def run_case(case):
     return {
         "viol": viol,
         "states": states,
-        "transitions": 3,
+        "transitions": len(ys),
         "nontrivial": blocked,
         "outcome": (tuple(map(tuple, o["lines"] or [])), tuple(o["vars"].get("t") or []), o["vars"].get("x")),
         "fingerprint": run.h64(o),
